@@ -64,20 +64,39 @@ func (p plainReader) Read(b []byte) (int, error) { return p.r.Read(b) }
 
 // decodeInto runs one decode; returns consumed (valid when err == nil)
 func decodeInto(rv codec, path string, b []byte) (consumed int, err error) {
+	n, _, e := decodeIntoS(rv, path, b)
+	return n, e
+}
+
+// decodeIntoS also returns what the caller does next with its memory: overwrite the input slice it decoded from
+// (slice path) / let the reader take in the next 8 KiB from the connection (stream path)
+func decodeIntoS(rv codec, path string, b []byte) (consumed int, reuse func(), err error) {
 	if path == "B" {
 		in := append([]byte{}, b...)
 		left, e := rv.UnmarshalMsg(in)
 		if e != nil {
-			return 0, e
+			return 0, nil, e
 		}
-		return len(b) - len(left), nil
+		return len(b) - len(left), func() {
+			for i := range in {
+				in[i] = 0x5a
+			}
+		}, nil
 	}
 	br := bytes.NewReader(b)
 	rd := msgp.NewReader(plainReader{br})
 	if e := rv.DecodeMsg(rd); e != nil {
-		return 0, e
+		return 0, nil, e
 	}
-	return len(b) - br.Len() - rd.Buffered(), nil
+	return len(b) - br.Len() - rd.Buffered(), func() {
+		rd.Reset(bytes.NewReader(bytes.Repeat([]byte{0x5a}, 16384)))
+		for i := 0; i < 4; i++ {
+			if _, e := rd.R.Peek(2048); e != nil {
+				break
+			}
+			_, _ = rd.R.Skip(2048)
+		}
+	}, nil
 }
 
 // withWatchdog runs f in its own goroutine; a panic or a timeout becomes an observation
@@ -107,11 +126,17 @@ func decObs(ty, path string, prev []byte, havePrev bool, b []byte) string {
 				rv = newRecv(ty)
 			}
 		}
-		n, err := decodeInto(rv, path, b)
+		n, reuse, err := decodeIntoS(rv, path, b)
 		if err != nil {
 			return "err"
 		}
-		return fmt.Sprintf("ok %d %s", n, renderMsg(rv))
+		first := renderMsg(rv)
+		reuse()
+		if again := renderMsg(rv); again != first {
+			// the decoded value looks into memory that belongs to the caller / the reader
+			return fmt.Sprintf("ok %d %s aliased", n, first)
+		}
+		return fmt.Sprintf("ok %d %s", n, first)
 	})
 }
 
